@@ -88,10 +88,10 @@ def claim_twice(ck, prog, nepochs):
     ck.require(n >= 1, 'claim twice: no path reached the second claim')
 
 
-def reply_step(ck, prog, nepochs, nassets=1, expired=0):
+def reply_step(ck, prog, nepochs, nassets=1, expired=0, empty_at=None):
     def body(it):
         c = it.ctx
-        st = setup_dist(it, nepochs, nassets, cursor='some', expired=expired)
+        st = setup_dist(it, nepochs, nassets, cursor='some', expired=expired, empty_at=empty_at)
         T = c.sym('forwarded', 128); c.assume(T < 2**120)
         newid = c.sym('new_id', 64); c.assume(newid > st['base'] + nepochs)
         ne = it.mk(FD + 'Epoch', id=U64(newid), start_time=TS(c.sym('new_start', 64)), total=VecV([nasset(it, ASSETS[0], T)]), available=VecV([nasset(it, ASSETS[0], T)]),
@@ -102,7 +102,7 @@ def reply_step(ck, prog, nepochs, nassets=1, expired=0):
         rep = Agg('cosmwasm_std::Reply', [1, Enum('cosmwasm_std::SubMsgResult', 'Ok', [Agg('cosmwasm_std::SubMsgResponse', [VecV([]), SOME(data)])])])
         it.extra = dict(st=st, T=T, newid=newid)
         return enter(it, 'fee_distributor', 'reply', mk_env(it, c.sym('now', 64)), None, rep)
-    tag = 'reply.e%d.a%d%s' % (nepochs, nassets, '.expired%d' % expired if expired else '')
+    tag = 'reply.e%d.a%d%s%s' % (nepochs, nassets, '.expired%d' % expired if expired else '', '.empty%d' % empty_at if empty_at is not None else '')
     n = 0
     for p in ck.explore(prog, body, tag):
         ck.sample(dict(entry='fee_distributor.reply(new epoch)', epochs=nepochs, outcome=p.short()))
@@ -144,6 +144,7 @@ def main():
     ck.require(nok >= 2 and nok2 >= 1, 'claim: missing Ok paths')
     claim_twice(ck, prog, 2)
     reply_step(ck, prog, 3); reply_step(ck, prog, 2, 2)
+    reply_step(ck, prog, 3, 1, empty_at=1); reply_step(ck, prog, 3, 1, empty_at=2)      # a zero-fee epoch sits in the window while an older one expires
     reply_step(ck, prog, 3, 1, expired=1)      # an already-expired epoch is back in the window (grace period was increased)
     ck.bounds.update(epochs='2..3 stored epochs (thorough 4) with consecutive ids from a symbolic base, 1..2 assets each', grace='grace period symbolic in [1,30] (the window arithmetic forks on it)',
                      widths='totals/available full range below 2^120, shares any Decimal <= 1', cursor='cursor symbolic / absent with or without bonding history')
